@@ -1,7 +1,10 @@
 package engine
 
 import (
+	"go/constant"
+	"go/token"
 	"go/types"
+	"strings"
 
 	"golang.org/x/tools/go/ssa"
 )
@@ -135,6 +138,138 @@ func NormaliseBufferEncodes(fn *ssa.Function) bool {
 			k := instrPos(best.call)
 			eb.Instrs = append(eb.Instrs[:k+1:k+1], append([]ssa.Instruction{nc}, eb.Instrs[k+1:]...)...)
 			replaceOperands(fn, cv, nc)
+			changed = true
+		}
+	}
+	if changed {
+		rebuildReferrers(fn)
+	}
+	return changed
+}
+
+// NormaliseJoinLoops: a hand-written join —
+//
+//	for i, s := range list { if i > 0 { buf.WriteByte(',') }; buf.WriteString(s) }; buf.String()
+//
+// on a buffer that receives nothing else — is strings.Join(list, ","), and is
+// rewritten into that call (inserted in front of the String() call, whose
+// uses it takes over) so that the rules see one spelling.
+func NormaliseJoinLoops(fn *ssa.Function) bool {
+	if fn.Prog == nil {
+		return false
+	}
+	sp := fn.Prog.ImportedPackage("strings")
+	if sp == nil || sp.Func("Join") == nil {
+		return false
+	}
+	join := sp.Func("Join")
+	name := func(c *ssa.Call) string {
+		if f := c.Call.StaticCallee(); f != nil {
+			return f.String()
+		}
+		return ""
+	}
+	changed := false
+	for _, b := range fn.Blocks {
+		for _, in := range b.Instrs {
+			res, ok := in.(*ssa.Call)
+			if !ok || len(res.Call.Args) != 1 || (name(res) != "(*bytes.Buffer).String" && name(res) != "(*strings.Builder).String") {
+				continue
+			}
+			obj := res.Call.Args[0]
+			if obj.Referrers() == nil {
+				continue
+			}
+			var sepW, elemW *ssa.Call
+			clean := true
+			for _, ref := range *obj.Referrers() {
+				c, isC := ref.(*ssa.Call)
+				if !isC || c == res {
+					continue
+				}
+				n := name(c)
+				switch {
+				case strings.HasSuffix(n, ").WriteByte"), strings.HasSuffix(n, ").WriteString"), strings.HasSuffix(n, ").WriteRune"):
+					if len(c.Call.Args) != 2 || c.Call.Args[0] != obj {
+						clean = false
+						continue
+					}
+					if _, isK := c.Call.Args[1].(*ssa.Const); isK {
+						if sepW != nil {
+							clean = false
+						}
+						sepW = c
+					} else {
+						if elemW != nil {
+							clean = false
+						}
+						elemW = c
+					}
+				case strings.HasSuffix(n, ").Write"):
+					clean = false
+				}
+			}
+			if !clean || sepW == nil || elemW == nil || !strings.HasSuffix(name(elemW), ").WriteString") {
+				continue
+			}
+			// the element: list[i]
+			ld, isLd := elemW.Call.Args[1].(*ssa.UnOp)
+			if !isLd {
+				continue
+			}
+			ia, isIA := ld.X.(*ssa.IndexAddr)
+			if !isIA {
+				continue
+			}
+			if _, isSl := ia.X.Type().Underlying().(*types.Slice); !isSl {
+				continue
+			}
+			list, idx := ia.X, ia.Index
+			// the separator is written exactly when i > 0
+			sb := sepW.Block()
+			if len(sb.Preds) != 1 {
+				continue
+			}
+			pb := sb.Preds[0]
+			ifi, isIf := pb.Instrs[len(pb.Instrs)-1].(*ssa.If)
+			if !isIf || pb.Succs[0] != sb {
+				continue
+			}
+			bo, isBO := ifi.Cond.(*ssa.BinOp)
+			if !isBO || bo.X != idx {
+				continue
+			}
+			if k, isK := ConstInt(bo.Y); !isK || k != 0 || (bo.Op != token.GTR && bo.Op != token.NEQ) {
+				continue
+			}
+			// both writes sit in the loop over i; the result is read after it
+			eb := elemW.Block()
+			if !blockReaches(eb, eb) || !blockReaches(sb, eb) || blockReaches(res.Block(), eb) {
+				continue
+			}
+			// every iteration writes the element: the index's block leads to it on both arms
+			if !(pb == eb || (len(pb.Succs) == 2 && (pb.Succs[1] == eb) && len(sb.Succs) == 1 && sb.Succs[0] == eb)) {
+				continue
+			}
+			var sep ssa.Value
+			k := sepW.Call.Args[1].(*ssa.Const)
+			if bt, isB := k.Type().Underlying().(*types.Basic); isB && bt.Info()&types.IsString != 0 {
+				sep = k
+			} else if n, isN := ConstInt(k); isN && n > 0 && n < 128 {
+				sep = ssa.NewConst(constant.MakeString(string(rune(n))), types.Typ[types.String])
+			} else {
+				continue
+			}
+			nc := &ssa.Call{}
+			nc.Call.Value = join
+			nc.Call.Args = []ssa.Value{list, sep}
+			setUnexported(nc, "typ", res.Type())
+			setUnexported(nc, "pos", res.Pos())
+			rb := res.Block()
+			setBlock(nc, rb)
+			kpos := instrPos(res)
+			rb.Instrs = append(rb.Instrs[:kpos:kpos], append([]ssa.Instruction{nc}, rb.Instrs[kpos:]...)...)
+			replaceOperands(fn, res, nc)
 			changed = true
 		}
 	}
